@@ -30,6 +30,7 @@ EXTENDS Naturals, Integers, Sequences, FiniteSets, TLC
 CONSTANTS Part,         \* "rx" or "tx"
           Deviations,   \* subset of AllDeviations
           Roles,        \* rx: roles of the receiving endpoint explored, subset of {"client","server"}
+          InitPhases,   \* rx: phases a behaviour may start in (the harness walks a live pair there)
           FlipBits,     \* rx: [content type -> number of bits of the genuine record that is flipped]
           Senders,      \* tx: set of concurrent callers of send()
           Limit,        \* tx: path limit in model units (MAX_APP_DATA_RECORD_SIZE)
@@ -48,7 +49,7 @@ VARIABLES
   phase,      \* "NoKeys" | "KeysPending" | "Connected" | "Closed" | "Failed"
   delivered,  \* ghost: number of byte strings handed to the upper layer
   last,       \* the last step: [kind |-> "init" | "progress" | "recv", rec |-> record, pre |-> phase before]
-  hist,       \* ghost: steps that lead to the current state (shortest, see VIEW)
+  hist,       \* ghost: <<[rec, to]>> - the records received so far and the phase after each
   \* ---- tx
   plan,       \* [Senders -> Sizes]: payload size each caller submits
   early, withClose,
@@ -90,6 +91,8 @@ HasBase(r, ph, c) == CASE c = "AppData"   -> GenuineApp(r, ph)
                        [] OTHER           -> HaveKeys(r, ph)
 
 TruncHows   == {"tail1", "tail16", "short", "empty", "nolenfix"}
+\* the unauthentic record that shares a datagram with an authentic ApplicationData record
+BadKinds    == {"e0-app", "e0-close", "badtag", "wrongkey"}
 RewriteHows == {"hdr", "nonce"}
 PlainHs     == {"e0-hs-dup", "e0-hs-finished", "e0-hs-finished-next", "e0-hs-cert", "e0-hs-cert-next",
                 "e0-hs-hvr", "e0-hs-hvr-next"}
@@ -124,10 +127,16 @@ Records(r, ph) ==
   \cup { Rec(c, "e1-retype", s, -1, "")  : c \in {x \in CT : \/ x # "Handshake" /\ GenuineFin(r, ph)
                                                              \/ x = "Handshake" /\ GenuineApp(r, ph)},
                                             s \in S }
+  \* two records in one datagram: an unauthentic one before / after an authentic ApplicationData record
+  \cup (IF HaveKeys(r, ph)
+        THEN { Rec("AppData", k, s, -1, h) : k \in {"dg-bad+auth", "dg-auth+bad"}, s \in S, h \in BadKinds }
+        ELSE {})
 
 \* "decrypts and authenticates under the negotiated keys" (a replay and a record
 \* sealed for a later epoch do - the property does not speak about either)
 Authentic(rec) == rec.cls \in {"e1-auth", "e1-replay", "e2-sealed"}
+\* number of authentic ApplicationData records in the datagram
+AuthApps(rec)  == IF rec.ct = "AppData" /\ (Authentic(rec) \/ rec.cls \in {"dg-bad+auth", "dg-auth+bad"}) THEN 1 ELSE 0
 
 \* region of the flipped bit (13-byte header, 8-byte explicit nonce, body, 16-byte tag)
 Region(rec) == IF rec.cls # "e1-flip" THEN ""
@@ -142,8 +151,13 @@ Free(ph) == {ph, "Closed", "Failed"}
 Effects(r, ph, rec) ==
   IF ~KeysExist(ph)
   THEN \* before keys exist the property is silent; plaintext ApplicationData is still never valid
-       [delta |-> {0}, next |-> {"NoKeys", "Closed", "Failed"},
+       [delta |-> {0}, next |-> {"NoKeys", "Failed"},
         drule |-> "EXT", srule |-> "EXT"]
+  ELSE IF rec.cls = "dg-bad+auth"
+  THEN \* the unauthentic part changes nothing; whether parsing goes on to the authentic part is free
+       [delta |-> {0, 1}, next |-> {ph}, drule |-> "OnlyAuthentic", srule |-> "OnlyAuthentic"]
+  ELSE IF rec.cls = "dg-auth+bad"
+  THEN [delta |-> IF ph = "Connected" THEN {1} ELSE {0, 1}, next |-> {ph}, drule |-> "EXT", srule |-> "OnlyAuthentic"]
   ELSE IF ~Authentic(rec)
   THEN [delta |-> {0}, next |-> {ph}, drule |-> "OnlyAuthentic", srule |-> "OnlyAuthentic"]
   ELSE IF rec.cls = "e1-auth"
@@ -171,19 +185,21 @@ DeviantEffects(r, ph, rec) ==
   THEN {<<0, "Failed">>}
   ELSE {}
 
+Step(rec, to) == [rec |-> rec, to |-> to]
+
 RxInit ==
   /\ role \in Roles
-  /\ phase = "NoKeys"
+  /\ phase \in InitPhases
   /\ delivered = 0
   /\ last = [kind |-> "init", rec |-> Rec("", "", "", -1, ""), pre |-> "NoKeys"]
-  /\ hist = <<>>
+  /\ hist = << Step(Rec("", "start", "", -1, ""), phase) >>
 
 \* the genuine plaintext flights are processed and the keys derived
 Progress ==
   /\ phase = "NoKeys"
   /\ phase' = "KeysPending"
   /\ last' = [kind |-> "progress", rec |-> Rec("", "", "", -1, ""), pre |-> phase]
-  /\ hist' = Append(hist, "DeriveKeys")
+  /\ hist' = Append(hist, Step(Rec("", "derive-keys", "", -1, ""), phase'))
   /\ UNCHANGED <<role, delivered>>
 
 Recv(rec) ==                       \* rec \in Records(role, phase), see RxNext
@@ -192,7 +208,7 @@ Recv(rec) ==                       \* rec \in Records(role, phase), see RxNext
      \/ \E d \in e.delta, n \in e.next : delivered' = delivered + d /\ phase' = n
      \/ \E x \in DeviantEffects(role, phase, rec) : delivered' = delivered + x[1] /\ phase' = x[2]
   /\ last' = [kind |-> "recv", rec |-> rec, pre |-> phase]
-  /\ hist' = Append(hist, rec)
+  /\ hist' = Append(hist, Step(rec, phase'))
   /\ UNCHANGED role
 
 RxNext == Progress \/ \E rec \in Records(role, phase) : Recv(rec)
@@ -200,7 +216,7 @@ RxNext == Progress \/ \E rec \in Records(role, phase) : Recv(rec)
 (* C03, first sentence *)
 OnlyAuthentic ==
   [][ (last'.kind = "recv" /\ KeysExist(phase) /\ ~Authentic(last'.rec))
-        => (delivered' = delivered /\ phase' = phase) ]_rxvars
+        => (delivered' - delivered \in 0..AuthApps(last'.rec) /\ phase' = phase) ]_rxvars
 
 ---------------------------------------------------------------------------
 (* Sender                                                                   *)
